@@ -264,6 +264,18 @@ def run(ctx):
                     ctx.sample({"a": str(a), "c": str(c), "b": str(b), "mag": repr(mag), "direct": repr(ab.magnitude), "via_c": repr(acb.magnitude)})
     own_unit_questions(ctx, env)      # last in this process: it declares equivalences across dimensions, which steer later searches
     synthetic(ctx)
+    # the same questions asked by two threads at once (deterministic line scheduler, units of the scenario's own with exact
+    # ratios, the temperature scales, levels): what this property says about an answer holds for every thread's answer
+    if ctx.shard == 0:
+        from .. import concurrent_conv
+        _mon = locals().get("mon")
+        if _mon is not None:
+            _mon.paused = True
+        try:
+            concurrent_conv.section(ctx, env, trials=(120 if ctx.tier == "quick" else 1500), key="C05")
+        finally:
+            if _mon is not None:
+                _mon.paused = False
     ctx.require("relations/round_trip", 50)
     ctx.require("relations/linearity", 50)
     ctx.require("relations/via_intermediate", 20)
